@@ -7,7 +7,7 @@ CONSTANTS Depth
 
 Classes == {"identifier", "field", "unexported", "method", "nilderef", "nilderef-embedded", "mapfield-ok", "mapchain-missing", "index-range", "index-len", "index-empty", "index-neg", "index-str", "index-strlen", "index-kind", "index-nil",
             "slice-bound", "slice-kind", "operand-mul", "operand-add", "operand-neg", "operand-cmp", "calltarget", "calltarget-nil", "calltarget-nil-noargs", "range-invalid", "range-nilliteral",
-            "argcount", "argcount-jetfunc", "argtype", "argtype-iface", "argtype-iface-variadic", "argtype-iface-piped", "arg-invalid", "underscore", "underscore-jetfunc", "underscore-variadic", "argcount-variadic", "func",
+            "argcount", "argcount-jetfunc", "argtype", "argtype-iface", "argtype-iface-variadic", "argtype-iface-piped", "arg-invalid", "underscore", "underscore-jetfunc", "underscore-variadic", "argcount-variadic", "func", "func-wrapsrt", "argcount-jetfunc0", "argcount-jetfunc0-piped",
             "len-kind", "ints-range", "pipe-nonfunc", "argcount-piped-jetfunc", "argcount-piped"}
 Positions == {"print", "let", "set", "ifcond", "iflet", "rangecoll", "yieldarg", "yieldctx", "ycontentctx", "includectx", "return", "execctx", "yieldnoval", "yieldnoval0"}
 Places == {"main", "layout"}
@@ -54,7 +54,7 @@ MkC(par) ==
 cParams == {p \in PathsUpTo(PosKinds, Depth) \X Classes \X Positions \X Places \X (0..1) :
               /\ (p[5] = 1 => p[3] = "print")
               /\ (p[3] \in {"yieldnoval", "yieldnoval0"} => p[2] = "identifier")
-              /\ (p[2] \in {"pipe-nonfunc", "safewriter-notlast", "argcount-piped-jetfunc", "argcount-piped", "argtype-iface-piped"} => p[3] = "print")
+              /\ (p[2] \in {"pipe-nonfunc", "safewriter-notlast", "argcount-piped-jetfunc", "argcount-piped", "argtype-iface-piped", "argcount-jetfunc0-piped"} => p[3] = "print")
               /\ (p[2] \in {"range-invalid", "range-nilliteral"} => p[3] = "rangecoll")   \* nil is only an error as a range subject
               /\ (p[2] = "calltarget-nil-noargs" => p[3] \in {"print", "let", "ifcond", "rangecoll"})
               /\ (p[4] = "layout" => p[3] \in {"print", "let", "yieldarg"})}
